@@ -324,6 +324,28 @@ class IndexRun:
         view['lims'] = lims
         # undo rows present (C15)
         view['undo'] = sorted(int.from_bytes(k[1:], 'big') for k, _v in db.utxo_db.iterator(prefix=b'U'))
+        # raw scan of both LevelDBs reduced to semantic rows: nothing may be left that the read API does not show
+        slot_of_num = [x[0] for x in nums]
+        rawu, rawh = [], []
+        for k, v in db.utxo_db.iterator(prefix=b'u'):
+            n = int.from_bytes(k[16:21], 'little')
+            rawu.append([slot_of_num[n] if n < len(slot_of_num) else 0, int.from_bytes(k[12:16], 'little'),
+                         self.scripts.get(k[1:12], 0), int.from_bytes(v, 'little')])
+        for k, v in db.utxo_db.iterator(prefix=b'h'):
+            n = int.from_bytes(k[9:14], 'little')
+            t = slot_of_num[n] if n < len(slot_of_num) else 0
+            pfx_ok = int(t in uni.hash and uni.hash[t][:4] == k[1:5])
+            rawh.append([t, int.from_bytes(k[5:9], 'little'), self.scripts.get(bytes(v), 0), pfx_ok])
+        view['rawu'] = sorted(rawu)
+        view['rawh'] = sorted(rawh)
+        rows = []
+        for k, v in db.history.db.iterator():
+            if len(k) == 13:
+                rows.append([self.scripts.get(k[:11], 0), int.from_bytes(k[11:], 'big'),
+                             [int.from_bytes(v[j:j + 5], 'little') for j in range(0, len(v), 5)]])
+        view['rawhist'] = sorted(rows)
+        view['undolen'] = sorted([int.from_bytes(k[1:], 'big'), len(v) // 24, len(v) % 24]
+                                 for k, v in db.utxo_db.iterator(prefix=b'U'))
         view['best'] = [b.bid for b in self.tree.chain(self.best)]
         view['fresh'] = bool(self.fresh)
         view['shrunk'] = bool(self.shrunk)
